@@ -32,6 +32,19 @@ CLAIMED = {
                 "utf8parse is transcribed and tied by correspondence only.",
         "technique": "Coq proof (table = by-range spec by kernel enumeration; parser refinement) + translator + differential correspondence",
     },
+    "C13": {
+        "text": "Machine-checked Coq theorems about a hand model of Effects (u16 bit set: insert/remove/contains/set/clear/is_plain, both index-loop iterators, Debug), "
+                "Style (setters, getters, convenience methods, |, -, |=, -= and == with Effects, From<Effects>, is_plain) and the AnsiColor/Ansi256Color conversions. "
+                "The set laws are proved for every set by bitwise reasoning (no enumeration of sets); iteration = the members in declaration order, sorted, duplicate-free, "
+                "union = the set; Debug = the names of exactly the members; the model equals an independent executable set-theoretic specification on characteristic vectors; "
+                "the 16-colour and 256-index facts by complete enumeration in the kernel. The effect bit constants, METADATA, the 16-arm match tables, the convenience-method "
+                "table and the shape of both iterator loops are translated from effect.rs/color.rs/style.rs on every run. The hand model is tied to the code by differential "
+                "execution: all 4096 sets, 4096x12 singletons, 10^5 seeded pairs (quick), all 4096x4096 pairs (thorough, digests), all 16 colours, all 256 indices, seeded styles.",
+        "design_ref": "DESIGN.md section 6, C13",
+        "note": "Trusted: Coq kernel (vm_compute), translator, extraction (ExtrOcamlBasic), OCaml driver, Rust harness (reads the raw u16 through the derived Hash; "
+                "names a set by its mask over the twelve public constants, proved to be the identity for the translated constants).",
+        "technique": "Coq proof (bitwise set laws for all sets, finite colour tables by kernel enumeration, model = set-theoretic spec) + translator + differential correspondence",
+    },
 }
 
 NOT_YET = {
